@@ -79,7 +79,13 @@ def namespace():
             a = 1
             b = 2
             c = 8
-        ns.update(E=E, F=F, sum8=sum8, xor8=xor8, len=len)
+        class Z(enum.IntEnum):          # with a member equal to 0, and one that is a combination of others
+            none = 0
+            read = 1
+            write = 2
+            rw = 3
+            hi = 0x80
+        ns.update(E=E, F=F, Z=Z, sum8=sum8, xor8=xor8, len=len)
         exec(POOL_DEFS, ns)
         R.HASHES[id(sum8)] = 'HSum8'
         R.HASHES[id(xor8)] = 'HXor8'
